@@ -413,5 +413,3 @@ func callsBodyless(fn *ssa.Function) bool {
 	}
 	return false
 }
-
-
